@@ -15,13 +15,17 @@ def rle_encode(text: str) -> str:
 
 def rle_decode(text: str) -> str:
     """Decodes markers and handles escaped literal delimiters properly."""
-    # Step 1: Find and expand the RLE tokens (~cN~)
-    # Strictly matches one non-tilde character and its count inside ~ delimiters
-    rle_pattern = re.compile(r"~([^~])(\d+)~")
-    expanded = rle_pattern.sub(lambda m: m.group(1) * int(m.group(2)), text)
+    # NOTE: a single left-to-right pass over the tokens the encoder writes:
+    #   an escaped delimiter (~~) is consumed as one token, so a marker pattern
+    #   can never match starting in the middle of it ('~~a1~~' is the text '~a1~')
+    token = re.compile(r"~~|~([^~])(\d+)~")
 
-    # Step 2: Collapse the doubled literal delimiters back to single ones (~~ -> ~)
-    return expanded.replace("~~", "~")
+    def expand(m: re.Match) -> str:
+        if m.group(0) == "~~":
+            return "~"
+        return m.group(1) * int(m.group(2))
+
+    return token.sub(expand, text)
 
 
 def compact_value(data: Any) -> Any:
